@@ -9,7 +9,7 @@ from concurrent.futures import ThreadPoolExecutor
 import inflight
 from common import Infra, NCPU, log, marker_json, require_ok, run_tlc, seed
 
-INVARIANTS = ["RequestsInOrder", "ResponsesInOrder", "WireOK", "ModesAgree", "AllArrive", "Emit"]
+INVARIANTS = ["RequestsInOrder", "ResponsesInOrder", "WireOK", "ModesAgree", "AllArrive", "EventsInOrder", "OnlyOwnResponses", "Emit"]
 
 
 def fault_configs(tier):
@@ -19,6 +19,18 @@ def fault_configs(tier):
         for modern in (True, False):
             for auth in ((False,) if tier == "quick" else (False, True)):
                 out.append(dict(rig=rig, modern=modern, auth=auth, nreq=2, big=[], faults=kinds))
+    return out
+
+
+def c10_configs(tier):
+    """C10 at the connection level: events, responses for unknown ids and a refused duplicate send mixed into the sessions
+    (one feature per configuration in the quick tier: their interleavings multiply)"""
+    out = []
+    feats = [dict(events=1), dict(spurious=1), dict(dup=True)] if tier == "quick" else [dict(events=2, spurious=1), dict(events=1, dup=True), dict(spurious=2, dup=True)]
+    for rig in ("lib-raw", "lib-lib"):
+        for modern in (True, False):
+            for f in feats:
+                out.append(dict(rig=rig, modern=modern, auth=False, nreq=2, big=[], spread=not modern, **f))
     return out
 
 
@@ -41,9 +53,9 @@ def configs(tier):
 
 def explore(scratch, cfg, name):
     with open(scratch.file(name + ".cfg"), "w") as f:
-        f.write("SPECIFICATION Spec\nCONSTANTS\n  Modern = %s\n  Auth = %s\n  Rig = \"%s\"\n  NReq = %d\n  BigFrames = {%s}\n  SplitSmall = {%s}\n  Faults = {%s}\nINVARIANTS %s\nCHECK_DEADLOCK FALSE\n" % (
+        f.write("SPECIFICATION Spec\nCONSTANTS\n  Modern = %s\n  Auth = %s\n  Rig = \"%s\"\n  NReq = %d\n  BigFrames = {%s}\n  SplitSmall = {%s}\n  NEvents = %d\n  NSpurious = %d\n  Dup = %s\n  Faults = {%s}\nINVARIANTS %s\nCHECK_DEADLOCK FALSE\n" % (
             "TRUE" if cfg["modern"] else "FALSE", "TRUE" if cfg["auth"] else "FALSE", cfg["rig"], cfg["nreq"],
-            ", ".join(str(b) for b in cfg["big"]), ", ".join(str(b) for b in cfg.get("small", [])), ", ".join('"%s"' % k for k in cfg.get("faults", [])), " ".join(INVARIANTS)))
+            ", ".join(str(b) for b in cfg["big"]), ", ".join(str(b) for b in cfg.get("small", [])), cfg.get("events", 0), cfg.get("spurious", 0), "TRUE" if cfg.get("dup") else "FALSE", ", ".join('"%s"' % k for k in cfg.get("faults", [])), " ".join(INVARIANTS)))
     raw = scratch.file(name + ".raw")
     res = require_ok(run_tlc(scratch, "Conn", cfg=name + ".cfg", marker='"SESSION"', outfile=raw, timeout=3000, workers=4), "Conn " + name)
     path = scratch.file(name + ".ndjson")
@@ -65,7 +77,7 @@ def explore(scratch, cfg, name):
 
 
 def replay(scratch, testbin, cfg, sessions, shards=8):
-    conn = dict(rig=cfg["rig"], modern=cfg["modern"], auth=cfg["auth"], big=cfg["big"])
+    conn = dict(rig=cfg["rig"], modern=cfg["modern"], auth=cfg["auth"], big=cfg["big"], spread=bool(cfg.get("spread")))
 
     def one(i):
         env = dict(os.environ, VERIF_SESSIONS=sessions, VERIF_CONN=json.dumps(conn), VERIF_SHARD=str(i), VERIF_NSHARDS=str(shards),
@@ -86,11 +98,11 @@ def replay(scratch, testbin, cfg, sessions, shards=8):
     return reps, crashes
 
 
-def run_conn(scratch, tier, testbin, faults=False):
+def run_conn(scratch, tier, testbin, faults=False, c10=False):
     out = dict(states=0, transitions=0, sessions=0, evaluations=0, distinct=0, violations=[], samples=[], runs=[])
-    for cfg in (fault_configs(tier) if faults else configs(tier)):
+    for cfg in (fault_configs(tier) if faults else c10_configs(tier) if c10 else configs(tier)):
         name = "conn-%s-%s-%s%s%s%s" % (cfg["rig"], "modern" if cfg["modern"] else "legacy", "auth" if cfg["auth"] else "noauth", "-faults" if faults else "",
-                                        "-big" + "".join(map(str, cfg["big"])) if cfg["big"] not in ([2], []) else "", "-small" + "".join(map(str, cfg["small"])) if cfg.get("small") else "")
+                                        "-big" + "".join(map(str, cfg["big"])) if cfg["big"] not in ([2], []) else "", "-small" + "".join(map(str, cfg["small"])) if cfg.get("small") else "") + ("-c10-ev%d-sp%d-dup%d" % (cfg.get("events", 0), cfg.get("spurious", 0), 1 if cfg.get("dup") else 0) if c10 else "")
         path, res, n = explore(scratch, cfg, name)
         out["states"] += res.distinct
         out["transitions"] += res.generated
